@@ -25,6 +25,11 @@ Import ListNotations.
 Theorem C14_dns_rule_table_eq_spec : forall re c qs, has_rules c = true ->
   questions_loop re c qs = forallb (question_spec re c) qs.
 Proof. exact questions_loop_spec. Qed.
+(* the size bounds the source compares with (read from MatchDNS.Match by the translator) are the protocol's 65535 on both
+   transports: together with the two equivalences below, every well-formed query of up to 65535 bytes that passes the rules
+   is matched over TCP and over UDP (EDNS0 queries above 512 bytes included) *)
+Theorem C14_dns_size_bounds : dns_tcp_limit = dns_max_msg /\ dns_udp_limit = dns_max_msg /\ dns_max_msg = N.to_nat 65535.
+Proof. exact (conj (proj1 dns_limits_ok) (conj (proj2 dns_limits_ok) eq_refl)). Qed.
 Theorem C14_dns_rules_case_insensitive : forall re c n1 n2 cl ty, lower_ascii n1 = lower_ascii n2 ->
   question_spec re c {| q_name := n1; q_class := cl; q_type := ty |} = question_spec re c {| q_name := n2; q_class := cl; q_type := ty |}.
 Proof. exact question_spec_case_insensitive. Qed.
@@ -216,6 +221,7 @@ Qed.
 
 Print Assumptions C14_dns_rule_table_eq_spec.
 Print Assumptions C14_openvpn_crypt2_type_only_metadata_refuted.
+Print Assumptions C14_dns_size_bounds.
 Print Assumptions C14_dns_rules_case_insensitive.
 Print Assumptions C14_dns_tcp_match_iff_ref.
 Print Assumptions C14_dns_udp_match_iff_ref.
